@@ -99,7 +99,8 @@ pub fn mask_dates(bytes: &[u8]) -> Vec<u8> {
 fn first_diff(a: &[u8], b: &[u8]) -> String {
     let n = a.len().min(b.len());
     let p = (0..n).find(|&i| a[i] != b[i]).unwrap_or(n);
-    let ctx = |x: &[u8]| String::from_utf8_lossy(&x[p.saturating_sub(40)..(p + 40).min(x.len())]).replace('\n', "\\n");
+    // printable rendering (the difference may sit inside binary stream data)
+    let ctx = |x: &[u8]| x[p.saturating_sub(40)..(p + 40).min(x.len())].iter().map(|&b| if b == b'\n' { "\\n".to_string() } else if (0x20..0x7f).contains(&b) { (b as char).to_string() } else { format!("\\x{:02x}", b) }).collect::<String>();
     format!("lengths {} vs {}, first difference at byte {}: …{}… vs …{}…", a.len(), b.len(), p, ctx(a), ctx(b))
 }
 
